@@ -196,6 +196,12 @@ def encrypt_message(inner, alg, recipients=(), passphrases=(), sk=None, s2k=(3, 
         if r['kind'] == 'rsa':
             pub = rsa.RSAPublicNumbers(r['e'], r['n']).public_key()
             c = pub.encrypt(block, padding.PKCS1v15())
+            if zero_lead_shared:
+                # the RSA integer begins with a zero octet (about one encryption in 256): its MPI is shorter than the modulus
+                for _try in range(20000):
+                    if c[0] == 0:
+                        break
+                    c = pub.encrypt(block, padding.PKCS1v15())
             body = b'\x03' + r['keyid'] + b'\x01' + build.mpi(int.from_bytes(c, 'big'))
             log['esk'].append({'kind': 'rsa', 'wire': list(body), 'm': list(block)})
         else:
